@@ -270,6 +270,8 @@ def run_task(pid: str, subname: str, tier: str, seed: int, shard: int) -> dict:
     import numpy as np
 
     np.seterr(all="ignore")
+    if os.environ.get("VERIF_VERBOSE") != "1":
+        sys.stdout = open(os.devnull, "w")  # EasyFEA prints advice/progress; keep the report clean
     mod = import_module(pid)
     sub = next(s for s in mod.SUBS if s.name == subname)
     known = load_known(pid)
